@@ -888,9 +888,9 @@ func init() {
 		if tier == "thorough" {
 			n = 150000
 		}
-		lits := []string{"a", "x_", "-", " ", "%", ":", "9", "foo", "_", "%s", "b:", "a", "x_", "-", " ", ":", "9", "foo", "_", ".", "B", "%%", "%d", "$", "$$", "}", "{", "$x", "${ab}"}
+		lits := []string{"a", "x_", "-", " ", "%", ":", "9", "foo", "_", "%s", "b:", "a", "x_", "-", " ", ":", "9", "foo", "_", ".", "B", "%%", "%d", "$", "$$", "}", "{", "$x", "${ab}", "é", "×", "α", "€", "ü9"}
 		capv := []string{"foo", "é", "a-b", "x y", "1", "%", "€:", "A_B", "", "q$", "{1}"}
-		corpus := [][2]string{{"$1$2", "*.*"}, {"100%-$1", "*"}, {"$1-$11", "*.a"}, {"${1}_x_$2", "*.*"}, {"$1a", "*"}, {"$0", "*"}, {"x", "a.*"}, {"$3", "*.*"}, {"a$", "*"}, {"${1", "*"}, {"$", "a"}, {"$$1", "*"}, {"$$", "*"}, {"$1$$2", "*.*"}, {"$1$x$2", "*.*"}, {"$1}", "*"}, {"${1}}", "*"}, {"$${1}", "*"}}
+		corpus := [][2]string{{"$1$2", "*.*"}, {"100%-$1", "*"}, {"$1-$11", "*.a"}, {"${1}_x_$2", "*.*"}, {"$1a", "*"}, {"$0", "*"}, {"x", "a.*"}, {"$3", "*.*"}, {"a$", "*"}, {"${1", "*"}, {"$", "a"}, {"$$1", "*"}, {"$$", "*"}, {"$1$$2", "*.*"}, {"$1$x$2", "*.*"}, {"$1}", "*"}, {"${1}}", "*"}, {"$${1}", "*"}, {"$1é", "*"}, {"${1é}", "*"}, {"${1}é", "*"}, {"é$1-", "*"}, {"$1×$2", "*.*"}, {"$é", "*"}, {"$1α", "*"}}
 		mk := func(tmpl, pat string, lblT []string) (*rawCfg, *rawCfg) {
 			g := rawRule{match: pat, name: "n_" + tmpl, help: "h0"}
 			for i, t := range lblT {
